@@ -1373,3 +1373,22 @@ mod tests {
         assert_vec_eq(tokens, exp_tokens);
     }
 }
+
+#[cfg(cicada_verif)]
+pub mod verif_hooks {
+    use super::*;
+    pub fn needs_globbing(line: &str) -> bool { super::needs_globbing(line) }
+    pub fn expand_one_env(sh: &Shell, token: &str) -> String { super::expand_one_env(sh, token) }
+    pub fn need_expand_brace(line: &str) -> bool { super::need_expand_brace(line) }
+    pub fn brace_getitem(s: &str, depth: i32) -> (Vec<String>, String) { super::brace_getitem(s, depth) }
+    pub fn brace_getgroup(s: &str, depth: i32) -> Option<(Vec<String>, String)> { super::brace_getgroup(s, depth) }
+    pub fn expand_brace(tokens: &mut types::Tokens) { super::expand_brace(tokens) }
+    pub fn expand_brace_range(tokens: &mut types::Tokens) { super::expand_brace_range(tokens) }
+    pub fn expand_alias(sh: &Shell, tokens: &mut types::Tokens) { super::expand_alias(sh, tokens) }
+    pub fn expand_home(tokens: &mut types::Tokens) { super::expand_home(tokens) }
+    pub fn env_in_token(token: &str) -> bool { super::env_in_token(token) }
+    pub fn should_do_dollar_command_extension(line: &str) -> bool { super::should_do_dollar_command_extension(line) }
+    pub fn do_command_substitution_for_dollar(sh: &mut Shell, tokens: &mut types::Tokens) { super::do_command_substitution_for_dollar(sh, tokens) }
+    pub fn do_command_substitution_for_dot(sh: &mut Shell, tokens: &mut types::Tokens) { super::do_command_substitution_for_dot(sh, tokens) }
+    pub fn do_command_substitution(sh: &mut Shell, tokens: &mut types::Tokens) { super::do_command_substitution(sh, tokens) }
+}
